@@ -26,12 +26,14 @@ import secint_oracle as O  # noqa: E402
 import common  # noqa: E402
 
 LEVEL = 'other'
-LEAN_MODULES = ['MpycV.Props.C01']
+LEAN_MODULES = ['MpycV.Props.C01', 'MpycV.Props.C01Eval']
 LEAN_NAMESPACES = ['MpycV.C01']
 REQUIRED_THEOREMS = ['toft_prod_zero_iff', 'sgn_lt', 'sgn_eq', 'sgn_sign', 'lsb_correct', 'mod_correct', 'divmod_python',
                      'isZeroPublic_correct', 'prodTree_eq_prod', 'allTree_eq', 'any_correct', 'pow_correct',
                      'ifElse_correct', 'ifSwap_correct', 'abs_correct', 'matrixProd_symmetric_index',
-                     'divstep_invariant', 'gcd_of_terminated', 'gcd_partial']
+                     'divstep_invariant', 'gcd_of_terminated', 'gcd_partial', 'gcd_terminates_table', 'divsteps_bezout',
+                     'trunc_exact_on_multiples', 'min_correct', 'max_correct', 'minMax_correct', 'divmod_correct',
+                     'eval_correct']
 RULE = ('case = one (program, configuration) run or one protocol instance; programs: random typed expression trees '
         '(depth <= 4 quick / 7 thorough) over + - * (incl. reflected and int-mixed forms), unary -, +, abs, sgn, '
         '< <= == != >= >, & | ^ ~ on bits, // % divmod >> by public divisors incl. powers of two and 1, ** n, lsb, '
@@ -41,8 +43,40 @@ RULE = ('case = one (program, configuration) run or one protocol instance; progr
         'for no-crash/no-hang/agreement; configurations m in 1..5 (thorough 7), every t with 2t < m, PRSS on/off, '
         'scheduler modes fifo/random/starve/lazynet/eagernet with whole/mixed/byte chunking; distinct = distinct '
         '(l, program, inputs); non-trivial = the program contains a protocol with communication or randomness')
-EXPLANATION = 'set at the end of development'
-ASSUMPTIONS = []
+EXPLANATION = ('PROVED in Lean (MpycV.C01; value layer = the integer the shares encode; for ALL inputs in range and ALL values of '
+               'the named randomness in the ranges the code draws it from; p prime, 2^(l+k+1) < p, k >= 1): sgn in its three modes '
+               '([a<0], [a=0], sign a; on the wide range (-2^l, 2^l) so that comparisons of arbitrary l-bit operands are exact), '
+               'incl. the opened value, the product-is-zero characterisation of the Toft comparison circuit and exactness of the '
+               'field division by 2^l; lsb; _mod for every public 0 < b < 2^l incl. powers of two and 1 (result = a % b, floor '
+               'semantics; the branch c == 0 -> c = b shown necessary); //, divmod via field division; is_zero_public for a nonzero '
+               'random factor; trunc (floor or floor+1, exact on multiples); prod/all/any log-round trees; ** n (square-and-multiply '
+               'and the 254 chain); if_else/if_swap/abs/sum/in_prod; min/max/min_max tournaments; matrix_prod incl. the symmetric '
+               'A*A^T triangular indexing; and the composition theorem eval_correct: for every expression tree over all these '
+               'operations whose intermediate values stay in l bits, protocol evaluation = Python-integer evaluation for every '
+               'randomness.  gcd/lcm/gcdext/inverse (Bernstein-Yang divsteps): proved are the loop invariants (f odd, gcd(f,g) '
+               'preserved, Bezout bookkeeping f = u*a + v*b), |f| = gcd once g = 0, gcd_partial/gcdext_partial/inverse_partial '
+               'UNDER the hypothesis that _iterations(l) divsteps terminate (Bernstein-Yang Thm 11.2, not proved), and that '
+               'hypothesis (plus the range of the reduced-bit-length comparisons) for all l-bit inputs, l <= 5, as a kernel-'
+               'evaluated FINITE TABLE.  VALIDATED ONLY (differential exploration of the real code against Python ints, not '
+               'proved): termination of the divstep loop for l > 5, the final range correction of inverse(), lcm, the '
+               'probabilistic equality test _is_zero [NO07] used for ==/!= when l/2 > sec_param (e.g. secint64 with k = 30; '
+               'one-sided error 2^-k), negative exponents (field reciprocal), and the multi-party layer itself (that shares '
+               'encode the value, resharing, output recombination: properties C11/C12/C14; here checked on every run by '
+               'per-party agreement of all outputs for m = 1..5 (7), every t, PRSS on/off, and by the degree check of every '
+               'recovered random sharing).  Hence level other, not proof.')
+ASSUMPTIONS = ['value-layer abstraction: a secure integer is the field element all parties\' shares encode; mul + _reshare gives a '
+               'degree-t sharing of the product, output recombines the secret from any t+1 shares (properties C11/C12/C14)',
+               'p = field modulus is prime with 2^(l+k+1) < p and sec_param k >= 1 (read from the running code for every case: '
+               'the Lean requests carry the real p)',
+               'random values lie in the ranges the code draws them from (random_bits in {0,1}, signed bit in {1,-1}, r_divl < 2^k, '
+               'lsb r < 2^(l+k-1), _randbelow < b, b*r_divb < 2^(k+l), trunc r_divf < 2^(k+l-f)): CHECKED on every recovered '
+               'protocol instance, a violation is reported as a model/code mismatch',
+               'is_zero_public: random factor nonzero in GF(p) (probability 1 - 1/p for large fields, ensured by the retry loop otherwise)',
+               '_mod: the masked value a + 2^l - 2^l % b + b*r_divb - r_modb is nonnegative (fails only if r_divb <= 1 and b > 2^(l-2)+1: '
+               'probability about 2b/2^(k+l))',
+               'Bernstein-Yang Thm 11.2 (iteration count of divsteps) for l > 5',
+               '== / != for l/2 > sec_param use the probabilistic test [NO07] with error probability 2^-sec_param per test',
+               'CPython int semantics of //, %, ** and math.gcd/lcm, pow(a,-1,b) (the oracle)']
 TRUSTED = ['harness/props/c01.py: program generator, interpreter on the real code, randomness recovery (Lagrange '
            'recombination of logged shares via harness/sharemon.py)', 'harness/secint_oracle.py: Python-int oracle']
 
@@ -208,7 +242,7 @@ class _Ev:
         raise KeyError(k)
 
 
-def run_program(prog, cfg, seed=0, sched=('fifo', 'whole'), max_steps=3_000_000):
+def run_program(prog, cfg, seed=0, sched=('fifo', 'whole'), max_steps=1_500_000):
     """prog = {'l':, 'env': [...], 'senders': [...], 'roots': [E...]}; returns dict(outs=[per party list] | error=)"""
     m, t, no_prss = cfg
     l = prog['l']
@@ -1089,7 +1123,7 @@ def subterms(e, out):
     return out
 
 
-def shrink(prog, cfg, seed, sched, budget=40):
+def shrink(prog, cfg, seed, sched, budget=24):
     """smaller program that still fails (same configuration / seed / schedule)"""
     def fails(p):
         return check_run(p, run_program(p, cfg, seed, sched)) is not None
@@ -1153,9 +1187,16 @@ def Gen_ok(prog):
 # ---------------------------------------------------------------------------------------------
 # exploration in worker processes
 # ---------------------------------------------------------------------------------------------
+_SHRUNK = [0]
+_FAILED = [0]
+
+
 def _job(job):
     import random
     kind = job['type']
+    if _FAILED[0] >= 6:
+        # this worker has already found several failing cases: the verdict is settled, do not burn the budget
+        return {'type': 'skipped'}
     if kind == 'prog':
         rng = random.Random(f"{job['seed']}:{job['key']}")
         if job.get('prog') is not None:
@@ -1169,7 +1210,10 @@ def _job(job):
             res = run_program(prog, tuple(cfg), seed, tuple(sched))
             bad = check_run(prog, res)
             rec = {'cfg': cfg, 'sched': sched, 'seed': seed, 'res': res, 'bad': bad}
-            if bad is not None and job.get('shrink', True):
+            if bad is not None:
+                _FAILED[0] += 1
+            if bad is not None and job.get('shrink', True) and _SHRUNK[0] < 3:
+                _SHRUNK[0] += 1            # per worker process: shrink only the first few failures
                 small = shrink(prog, tuple(cfg), seed, tuple(sched))
                 res2 = run_program(small, tuple(cfg), seed, tuple(sched))
                 bad2 = check_run(small, res2)
@@ -1178,18 +1222,23 @@ def _job(job):
             runs.append(rec)
         return {'type': 'prog', 'prog': prog, 'runs': runs}
     if kind == 'unit':
-        return dict(run_unit(job['job']), type='unit')
-    if kind == 'struct':
-        return dict(run_struct(job), type='struct')
-    if kind == 'gcd':
-        return dict(run_gcd(job), type='gcd')
-    raise KeyError(kind)
+        r = dict(run_unit(job['job']), type='unit')
+    elif kind == 'struct':
+        r = dict(run_struct(job), type='struct')
+    elif kind == 'gcd':
+        r = dict(run_gcd(job), type='gcd')
+    else:
+        raise KeyError(kind)
+    if 'error' in r:
+        _FAILED[0] += 1
+    return r
 
 
-def explore(jobs, procs=14):
+def explore(jobs, procs=4):
     import multiprocessing as mp
     if not jobs:
         return []
+    procs = min(procs, 4, os.cpu_count() or 1)      # shared machine: never more than 4 workers
     if procs <= 1 or len(jobs) < 4:
         return [_job(j) for j in jobs]
     with mp.get_context('fork').Pool(min(procs, len(jobs))) as pool:
@@ -1242,7 +1291,7 @@ def build_jobs(ctx, search=False):
     max_m = ctx.scale(5, 7)
     cfgs = configs(max_m)
     jobs = []
-    nprog = ctx.scale(200, 2600) * (2 if search else 1)
+    nprog = ctx.scale(200, 1400) * (2 if search else 1)
     max_depth = ctx.scale(4, 7)
     for i in range(nprog):
         l = LS[i % len(LS)]
@@ -1295,6 +1344,9 @@ def process(ctx, results):
     req, impl, origin = [], [], []
     for r in results:
         ty = r['type']
+        if ty == 'skipped':
+            ctx.count('skipped-after-failures')
+            continue
         if ty == 'prog':
             prog = r['prog']
             ops = []
